@@ -131,7 +131,9 @@ func c17GraphLayers(prefix string, states []int) (l0, l1 []tarimg.Entry) {
 			l0 = append(l0, tarimg.D(p, 0o755), tarimg.S(p+"/in_"+strings.ReplaceAll(p, "/", "_"), "/unrelated"))
 		case s == stMissing:
 		case s == stDeleted:
-			l0 = append(l0, tarimg.S(p, "/unrelated") /* what it was does not matter; a symlink costs the loader no disk write */)
+			// a real file before it is deleted: chains through it resolve in view 0 and must
+			// stop resolving in the later views (a result cached across views would show here)
+			l0 = append(l0, tarimg.F(p, "deleted-later:"+p, 0o644))
 			l1 = append(l1, tarimg.W(p))
 		default:
 			j := (s - stLinkBase) / 2
@@ -335,7 +337,9 @@ func c17CheckGraph(chains []scalibrfs.FS, prefix string, states []int, depth int
 	l0, l1 := c17GraphLayers(prefix, states)
 	views := overlay.Views(c17Image(l0, l1).Layers)
 	strictOpen, strictBoundary := strict || !col.IsKnown(clsOpenWhiteout), strict || !col.IsKnown(clsBoundary)
-	for _, vi := range []int{1, 2} {
+	// view 0 (before the deletions) first: a resolution result must not leak from one view
+	// of an image into another view in which the target has changed.
+	for _, vi := range []int{0, 1, 2} {
 		for i := range states {
 			p := "/" + c17EntryPath(prefix, i)
 			if err := c17CheckPath(chains[vi], views[vi], p, depth, strictOpen, strictBoundary, col, tl); err != nil {
